@@ -1,8 +1,128 @@
 import RisorModel.Util
-/-! Line-protocol front end of the C06 model (stub until the model exists). -/
+import RisorModel.C06.Model
+/-!
+Line-protocol front end of the C06 model (requests after the leading `C06` field).
+
+  run <pre|later> <shape>      shape = prefix tokens separated by single spaces:
+        D | C k | S | B <prim> k | W <wrap> body k | G <id> body k
+
+The reply lists what the Impl model allows for the case: where every thread parks when
+nothing is cancelled, whether the main thread would ever return by itself, and the set of
+outcomes `<error class of the main thread>|<ids of threads that never stop>` over the
+only race the outcome depends on (how many polls of the main thread see `halt = 0` before
+the watcher stores 1); plus the three guards of Props.lean evaluated on the shape.
+-/
 namespace Risor.C06
+open Risor.Util
+
+def parsePrim : String → Option Prim
+  | "recv" => some .recv | "send" => some .send | "next" => some .next
+  | "sleep" => some .sleep | "wait" => some .wait | _ => none
+
+def parseWrap : String → Option Wrap
+  | "each" => some .each | "map" => some .map | "filter" => some .filter
+  | "call" => some .call | "sorted" => some .sorted | "try" => some .try_ | _ => none
+
+def parseProg : Nat → List String → Option (Prog × List String)
+  | 0, _ => none
+  | _ + 1, [] => none
+  | f + 1, tok :: rest =>
+    match tok with
+    | "D" => some (.done, rest)
+    | "S" => some (.spin, rest)
+    | "C" => (parseProg f rest).map fun (k, r) => (.compute k, r)
+    | "B" =>
+      match rest with
+      | pr :: rest => do
+        let pr ← parsePrim pr
+        let (k, r) ← parseProg f rest
+        pure (.block pr k, r)
+      | [] => none
+    | "W" =>
+      match rest with
+      | w :: rest => do
+        let w ← parseWrap w
+        let (b, r) ← parseProg f rest
+        let (k, r) ← parseProg f r
+        pure (.cb w b k, r)
+      | [] => none
+    | "G" =>
+      match rest with
+      | id :: rest => do
+        let id ← id.toNat?
+        let (b, r) ← parseProg f rest
+        let (k, r) ← parseProg f r
+        pure (.spawn id b k, r)
+      | [] => none
+    | _ => none
+
+/-- one scheduling round: every thread present at the start of the round steps once; the
+    watchers of spawned threads (there are none in `implCfg`) fire as early as they can -/
+def round (cfg : Cfg) (s : Sys) : Sys :=
+  (List.range s.threads.length).foldl
+    (fun s i => apply cfg (if i = 0 then s else apply cfg s (.fire i)) (.step i)) s
+
+def settle (cfg : Cfg) : Nat → Sys → Sys
+  | 0, s => s
+  | f + 1, s => let s' := round cfg s; if s' == s then s else settle cfg f s'
+
+def stepsMain (cfg : Cfg) : Nat → Sys → Sys
+  | 0, s => s
+  | k + 1, s => stepsMain cfg k (apply cfg s (.step 0))
+
+def errName : Option Err → String
+  | none => "nil" | some .ctx => "ctx" | some .msg => "msg"
+
+def insertSorted (x : Nat) : List Nat → List Nat
+  | [] => [x]
+  | y :: ys => if x < y then x :: y :: ys else if x = y then y :: ys else y :: insertSorted x ys
+
+/-- outcome of a settled system: main error class | ids that spin for ever; `stuck` if some
+    thread is neither finished nor in an unhalted compute loop (never expected) -/
+def outcome (s : Sys) : String :=
+  match s.threads with
+  | [] => "stuck"
+  | m :: cl =>
+    let mainS := match m.st with
+      | .fin e => errName e
+      | _ => "hang"
+    let spin := cl.foldl (fun acc t => if t.st == .run .spin && !t.halt then insertSorted t.id acc else acc) []
+    let stuck := cl.any fun t => !(t.st.isFin || (t.st == .run .spin && !t.halt))
+    mainS ++ "|" ++ ",".intercalate (spin.map toString) ++ (if stuck then "|stuck" else "")
+
+def parkedOf (s : Sys) : String :=
+  ",".intercalate (s.threads.map fun t =>
+    toString t.id ++ ":" ++ (match t.st with
+      | .fin _ => "F" | .blocked _ _ => "B" | .run .spin => "S" | _ => "R"))
+
+def dedup (xs : List String) : List String :=
+  xs.foldl (fun acc x => if acc.contains x then acc else acc ++ [x]) []
+
+def runCase (cfg : Cfg) (instant : String) (p : Prog) : String :=
+  let fuel := 2 * size p + 8
+  let s0 := init p
+  let sA := if instant = "pre" then s0 else settle cfg fuel s0
+  let nonterm := match (settle cfg fuel s0).threads with
+    | m :: _ => !m.st.isFin
+    | [] => false
+  let s1 := apply cfg sA .cancel
+  let outs := (List.range (size p + 3)).map fun k =>
+    outcome (settle cfg fuel (apply cfg (stepsMain cfg k s1) (.fire 0)))
+  let b := fun (x : Bool) => if x then "1" else "0"
+  "ok\tparked=" ++ parkedOf sA ++ "\tnonterm=" ++ b nonterm ++ "\touts=" ++ ";".intercalate (dedup outs)
+    ++ "\tguards=" ++ b (!noCloneSpin p) ++ b (!noSwallow p) ++ b (!noLossy p)
 
 def handle : List String → String
-  | _ => "error\tnot-implemented"
+  | ["run", instant, shape] =>
+    let toks := shape.splitOn " "
+    match parseProg (toks.length + 1) toks with
+    | some (p, []) => runCase implCfg instant p
+    | _ => "error\tbad-shape"
+  | ["runspec", instant, shape] =>
+    let toks := shape.splitOn " "
+    match parseProg (toks.length + 1) toks with
+    | some (p, []) => runCase specCfg instant p
+    | _ => "error\tbad-shape"
+  | _ => "error\tunknown-request"
 
 end Risor.C06
